@@ -209,7 +209,11 @@ def write_evidence(prop, args, machine, results, completed, nruns, capped, batch
         "fault_free_runs": agg["fault_free_runs"],
         "fault_injecting_runs": agg["fault_runs"],
         "reach_probes": agg["probes"],
-        "distinct_abstract_states": len(state_set),
+        "distinct_abstract_states": len([x for x in state_set if not str(x).startswith("sched:")]),
+        "distinct_pool_schedule_signatures": len([x for x in state_set if str(x).startswith("sched:")]),
+        "state_measure": "abstract state = machine-specific tuple (object kind, rational flag, set of warm caches / operation class); "
+                         "pool schedule signature = (workers, chunk->worker assignment sequence, completion order) of every SimPool instance",
+
         "runs_outside_precondition": agg["preconditions"],
         "known_findings_matched": {k: v[1] for k, v in known_hits.items()},
         "unlisted_violation_signatures": len(viols),
